@@ -151,4 +151,61 @@ def failActionVerdict (fa : FailAction) (reason : Option Err) : Verdict :=
     else if fa.reject then .refused (applyOverride fa.override r)
     else .accepted false
 
+/-! ### check.dnsbl `checkLists` (round 10)
+
+Every configured list is looked up concurrently (`errgroup`); a list is clean, lists the client (its
+`ScoreAdj` is added to the score) or its lookup fails.  `eg.Wait()` returns the failure of ONE of the
+failed lookups — which one is the scheduler's choice (`pick`); the rejection is built from that one
+value by the helper pair `SMTPCode` / `SMTPEnchCode`. -/
+
+inductive ListOut
+  | clean
+  | listed (score : Int)
+  | failed (e : Err)
+deriving Repr, Inhabited
+
+/-- "DNS error during policy check" -/
+def dnsblErrMsg : List Nat := [68, 78, 83, 32, 101, 114, 114, 111, 114, 32, 100, 117, 114, 105, 110, 103, 32, 112, 111, 108, 105, 99, 121, 32, 99, 104, 101, 99, 107]
+/-- "Client identity is listed in the used DNSBL" -/
+def dnsblListedMsg : List Nat := [67, 108, 105, 101, 110, 116, 32, 105, 100, 101, 110, 116, 105, 116, 121, 32, 105, 115, 32, 108, 105, 115, 116, 101, 100, 32, 105, 110, 32, 116, 104, 101, 32, 117, 115, 101, 100, 32, 68, 78, 83, 66, 76]
+
+/-- the rejection for a failed lookup `e` -/
+def dnsblLookupErr (e : Err) : Err :=
+  .smtpWrap (smtpCode e 451 554) (smtpEnchCode e ⟨0, 7, 0⟩) dnsblErrMsg e
+
+def failedLookups : List ListOut → List Err
+  | [] => []
+  | .failed e :: r => e :: failedLookups r
+  | _ :: r => failedLookups r
+
+def dnsblScore : List ListOut → Int
+  | [] => 0
+  | .listed s :: r => s + dnsblScore r
+  | _ :: r => dnsblScore r
+
+inductive DnsblVerdict
+  | pass
+  | quarantine
+  | reject (e : Err)
+deriving Repr, Inhabited
+
+/-- the `pick`-th (cyclically) element of a non-empty list -/
+def pickOf (e0 : Err) (rest : List Err) (pick : Nat) : Err :=
+  match (e0 :: rest)[pick % (rest.length + 1)]? with
+  | some e => e
+  | none => e0
+
+def checkLists (rejectThres quarThres : Int) (outs : List ListOut) (pick : Nat) : DnsblVerdict :=
+  match failedLookups outs with
+  | e0 :: rest => .reject (dnsblLookupErr (pickOf e0 rest pick))
+  | [] =>
+    if dnsblScore outs ≥ rejectThres then .reject (.smtp 554 ⟨5, 7, 0⟩ dnsblListedMsg)
+    else if dnsblScore outs ≥ quarThres then .quarantine
+    else .pass
+
+/-- `check/dns` `requireMXRecord` (`det = 0`) / `requireMatchingRDNS` (`det = 25`): the verdict when the
+lookup itself fails with `e` — the same helper pair, 450 / 550, the same text. -/
+def policyLookupErr (det : Nat) (e : Err) : Err :=
+  .smtpWrap (smtpCode e 450 550) (smtpEnchCode e ⟨0, 7, det⟩) dnsblErrMsg e
+
 end MaddyVerif.Errors
